@@ -22,6 +22,13 @@ def main(argv):
   if a.cmd == 'replay':
     with open(a.path) as fh:
       obj = json.load(fh)
+    # some violations depend on set iteration order (e.g. which of two reaching definitions a
+    # dict keeps): the replay runs under the hash seed under which it was found
+    hs = obj.get('hashseed')
+    if hs is not None and os.environ.get('PYTHONHASHSEED') != str(hs):
+      import sys
+      env = dict(os.environ, PYTHONHASHSEED=str(hs))
+      os.execve(sys.executable, [sys.executable, '-m', 'vf', 'replay', a.path], env)
     from vf import replay
     return replay.replay(obj)
   return 2
